@@ -917,23 +917,20 @@ impl Property for P14 {
     }
 
     fn generate(r: &mut Rng, tier: Tier) -> C14 {
-        let family = *r.pick(IO_TYS);
-        let big = r.chance(1, if tier == Tier::Thorough { 40 } else { 400 });
-        let max_frames = if tier == Tier::Thorough && r.chance(1, 4) { 20 } else { 8 };
-        let max_frames = if tier == Tier::Thorough && r.chance(1, 4) { 20 } else { 8 };
-    let marathon = !big && r.chance(1, 150);
-    let nitems = if big { r.range(1, 2) } else if marathon { r.range(257, 600) } else { 1 + r.below(max_frames) } as usize;
-        let profile = if marathon { 0 } else { r.below(4) };
+        let shape = gen_shape(r, tier == Tier::Thorough);
+        let big = shape.big;
+        let family = if big { *r.pick(BYTEY_TYS) } else { *r.pick(IO_TYS) };
+        let nitems = shape.nframes;
         let en_poison = r.chance(1, 3);
         let en_hostile = r.chance(1, 6);
         let en_fail = r.chance(1, 5);
         let mut items = Vec::new();
         for _ in 0..nitems {
-            let size = match profile {
-                0 => r.below(4) as u32,
-                1 => r.below(30) as u32,
-                _ => gen_size(r, big),
-            };
+            let size = shape.size(r, items.len());
+            if big && items.is_empty() {
+                items.push(WKind::Val(ValSpec { ty: family, size, seed: r.next_u64() }));
+                continue;
+            }
             if en_fail && r.chance(1, 6) {
                 items.push(WKind::Fail(if r.chance(1, 2) { 0 } else { r.range(1, 200) as u32 }));
             } else if en_poison && r.chance(1, 4) {
@@ -975,6 +972,7 @@ impl Property for P14 {
             items.insert(at, WKind::Raw { declared, body: vec![0x42; behind] });
         }
         let len = stream_len(&items);
+        let largest = items.iter().map(|i| match i { WKind::Val(v) => reference_encoding(v).map(|p| p.len() + 4).unwrap_or(0), _ => 0 }).max().unwrap_or(0);
         let deep = tier == Tier::Thorough && r.chance(1, 4);
         let lane = |r: &mut Rng, en_short: bool, en_eintr: bool, fatal: bool| -> Vec<Step> {
             let density = *r.pick(&[1u64, 1, 3, 8]);
@@ -985,7 +983,7 @@ impl Property for P14 {
                     if en_eintr && r.below(16) < density {
                         Step::Err(ErrKind::Interrupted)
                     } else if en_short {
-                        Step::Xfer(1 + r.below(gran as u64) as u32)
+                        Step::Xfer(shape.xfer(r, gran, largest))
                     } else {
                         Step::Xfer(u32::MAX)
                     }
@@ -1004,17 +1002,18 @@ impl Property for P14 {
         let (ws, we) = (r.chance(1, 2), r.chance(1, 3));
         let w_sink = lane(r, ws, we, w_fatal);
         let cut = if r.chance(1, 4) && len > 0 { Some(r.below(len as u64 + 1) as u32) } else { None };
+        let roomy_w = r.chance(1, 2);
         C14 {
             family,
             items,
             w_max_len_mode: if r.chance(1, 4) { 1 + r.below(3) as u8 } else { 0 },
-            w_init_buf: if r.chance(1, 3) { r.range(1, 300) as u32 } else { 0 },
+            w_init_buf: if let (Some(n), true) = (shape.roomy_init, roomy_w) { n } else if r.chance(1, 3) { r.range(1, 300) as u32 } else { 0 },
             w_use_ctx: r.chance(1, 8),
             w_sink,
             w_fatal,
             cut,
             r_max_len_mode: if r.chance(1, 3) { 1 + r.below(3) as u8 } else { 0 },
-            r_init_buf: if r.chance(1, 3) { r.range(1, 300) as u32 } else { 0 },
+            r_init_buf: if let (Some(n), false) = (shape.roomy_init, roomy_w) { n } else if r.chance(1, 3) { r.range(1, 300) as u32 } else { 0 },
             r_use_ctx: r.chance(1, 8),
             r_src,
             r_fatal,
